@@ -44,7 +44,9 @@ type dbProfile struct {
 // names are opaque strings to setec: "a/../b" is NOT "b", "a/./b" and "a//b" are NOT "a/b" (a caller allowed
 // "a/*" may touch "a/../b" and nothing else by that name; it never reaches "b")
 var dbNames = [][]byte{[]byte("a"), []byte("b"), []byte("a/b"), []byte("p/q"), []byte(""), []byte("_internal/x"), []byte("a\nb"),
-	[]byte("a/../b"), []byte("a/./b"), []byte("a//b"), []byte("p/../_internal/x")}
+	[]byte("a/../b"), []byte("a/./b"), []byte("a//b"), []byte("p/../_internal/x"),
+	// ... and " a", "a ", " " are not "a" or "" either (no call may trim or otherwise normalise a name)
+	[]byte(" a"), []byte("a "), []byte(" ")}
 
 // two long names that agree on their first 290 bytes (generated / hierarchical names have no length limit
 // anywhere; a record, a grant or a request that keeps only a prefix confuses them)
@@ -244,7 +246,7 @@ func runDBHistory(work string, idx int, p *dbProfile, in DBInput, r *rand.Rand, 
 		}
 	} else {
 		forced := forcedSequences(r, p)
-		for len(in.Ops) < length && !env.hung {
+		for (len(in.Ops) < length || len(forced) > 0) && !env.hung {
 			var st DBStep
 			if len(forced) > 0 {
 				st, forced = forced[0], forced[1:]
@@ -315,6 +317,17 @@ func forcedSequences(r *rand.Rand, p *dbProfile) []DBStep {
 			return []DBStep{rs, mk("get", 0, 0), mk("put", 0, 2)}
 		}
 		return []DBStep{mk("put", 0, 1), mk("del", 0, 0), rs, mk("info", 0, 0), mk("del", 0, 0), mk("put", 0, 2)}
+	}
+	if (p.Name == "C02" || p.Name == "C06" || p.Name == "C03") && r.IntN(40) == 0 {
+		// a long rotation history: nothing but delete calls ever removes a version
+		var seq []DBStep
+		for k := 1; k <= 34; k++ {
+			seq = append(seq, mk("put", 0, 1+k%9))
+			if k > 1 {
+				seq = append(seq, mk("activate", uint32(k), 0))
+			}
+		}
+		return append(seq, mk("getver", 1, 0), mk("getver", 2, 0), mk("info", 0, 0))
 	}
 	switch r.IntN(8) {
 	case 0: // delete the newest version, then put again (empty value and the deleted value)
